@@ -11,6 +11,14 @@ Input classes: promises declared by created objects (extend / create / nested / 
 matched sync entries (objects of the base model), duplicates of every pair of those origins (also two
 matched entries of one object); `set` values that are scalars, references (!promise / !uuid / !find)
 and lists mixing the three in every position, at instruction level and inside matched sync entries.
+Systematic streams (every permutation): the option matrix of ONE creation that has to wait for a promise — `_type` (in
+single-class lists and in the multi-class list `datatypes`, where the created class depends on it), promise_id (absent /
+unused / used as parent / used as value), nested creations, list members, created by extend / create / a sync entry,
+keys of the description in several orders; and two or three VALUE-EQUAL actions waiting for the same promise (identical
+creations, named and unnamed, in one list or as identical instructions; identical instructions below a promised parent;
+identical `set`s; identical sync entries; the same !promise listed twice).  Oracles added for them: every requested
+object exists as often as it is written down and with the class its `_type` / its list says (raw XML: xsi:type + name),
+and the outcome (success or the error class) is the same for every order.
 """
 from __future__ import annotations
 
@@ -1612,7 +1620,9 @@ def run(chk: lib.Check):
     chk.coverage["features"] = dict(sorted(feat_count.items()))
     chk.coverage["rule"] = ("generated documents over LA functions/ports/exchanges/components/packages/classes/properties; every "
                             "permutation of the instructions for documents with <= %d instructions (thorough: also 10 documents with 6 instructions, 720 permutations each), %d random permutations beyond; "
-                            "models: %s; non-trivial = at least one deferral happened" % (limit_full, nrandom, ", ".join(bases)))
+                            "models: %s; plus, under every permutation, the option matrix of a waiting creation (_type x promise_id use x nested "
+                            "creations x list members x extend/create/sync, single- and multi-class lists) and documents with 2 or 3 value-equal "
+                            "actions waiting for the same promise; non-trivial = at least one deferral happened" % (limit_full, nrandom, ", ".join(bases)))
     chk.coverage["exhaustive"] = True
     if cases:
         k = next((i for i, c in enumerate(cases) if any(e[0] == 0 for e in c[1][1]) and c[1][0] == 0), 0)
@@ -1625,7 +1635,10 @@ def run(chk: lib.Check):
         "sync entries in C12 documents are restricted to find-by-name with set values and a promise id (found/not-found known statically: "
         "matched entries aim at objects of the base model whose name is unique in their list, created ones carry fresh names)",
         "a list-valued `set` is one action (clear + appends) that waits for the first unknown member; lists inside a created sync entry are "
-        "modelled as per-member appends (c_listattrs) but not generated",
+        "modelled as per-member appends (c_listattrs; generated by the option matrix only)",
+        "objects with equal names (value-equal creations) are one key in the model: its lists hold the key once per creation (multiplicity is "
+        "kept: deferred / executed actions are lists), the raw-XML oracle counts the elements; `_type` is outside the model (oracle: xsi:type); "
+        "the same !promise listed twice in a reference list is compared across orders by the oracle only (the implementation refuses duplicates)",
         "harness abstraction document -> val encoding, Tracer (monkeypatched signal class / setattr / coupled list front end)",
     ]
 
